@@ -185,6 +185,7 @@ const RECORD_CAP: usize = 4000;
 /// max_handshake_duration of both endpoints (the s2n-quic default, set explicitly)
 const HANDSHAKE_MS: u64 = 10_000;
 const PROC_CAP: usize = 6000;
+const XLOG_CAP: usize = 8000;
 
 // frame record kinds
 const K_STREAM: i128 = 1;
@@ -256,6 +257,16 @@ struct Shared {
     wire: Vec<[i128; 7]>,
     wire_capped: bool,
     wire_on: bool,
+    // generic event log of e2e_pn (mode 1), e2e_cid (mode 2), e2e_cc (mode 3): rows of 8 ints
+    xmode: u8,
+    xlog: Vec<[i128; 8]>,
+    xcapped: bool,
+    // e2e_cid: datagrams delivered to each endpoint and not yet known to be processed: (len, dcid hash)
+    delivered: [std::collections::VecDeque<(usize, u64)>; 2],
+    cid_len: usize,
+    ids: [u64; 2], // socket ids (client, server) for the delivery bookkeeping
+    // e2e_cc: ack-eliciting flag of the packets built by the tx interceptor, keyed (ep, space, pn)
+    built: HashMap<(usize, u64, u64), bool>,
 }
 
 type Sh = Arc<Mutex<Shared>>;
@@ -273,6 +284,13 @@ impl Shared {
             self.records.push(r);
         } else {
             self.capped = true;
+        }
+    }
+    fn xrow(&mut self, r: [i128; 8]) {
+        if self.xlog.len() < XLOG_CAP {
+            self.xlog.push(r);
+        } else {
+            self.xcapped = true;
         }
     }
     fn wire(&mut self, r: [i128; 7]) {
@@ -346,6 +364,12 @@ impl event::Subscriber for Sub {
             e.closed_class = err_class(&event.error);
             e.closed_us = now_us();
         }
+        let t = now_us() as i128;
+        match s.xmode {
+            1 => s.xrow([4, self.ep as i128, 0, 0, 0, t, 0, 0]),
+            3 => s.xrow([7, self.ep as i128, 0, 0, 0, 0, 0, t]),
+            _ => {}
+        }
     }
 
     fn on_recovery_metrics(&mut self, first: &mut bool, _meta: &events::ConnectionMeta, event: &events::RecoveryMetrics) {
@@ -357,6 +381,18 @@ impl event::Subscriber for Sub {
             + (4 * event.rtt_variance.as_micros() as u64).max(1000)
             + event.max_ack_delay.as_micros() as u64;
         let mut s = self.sh.lock().unwrap();
+        if s.xmode == 3 {
+            s.xrow([
+                3,
+                self.ep as i128,
+                event.pto_count as i128,
+                event.congestion_window as i128,
+                event.bytes_in_flight as i128,
+                event.smoothed_rtt.as_micros() as i128,
+                event.latest_rtt.as_micros() as i128,
+                now_us() as i128,
+            ]);
+        }
         let e = &mut s.ep[self.ep];
         e.max_pto_us = e.max_pto_us.max(pto);
     }
@@ -378,6 +414,112 @@ impl event::Subscriber for Sub {
             (K_TP_STREAMS_UNI, tp.initial_max_streams_uni),
         ] {
             s.record([ep, 1, k, 0, 0, 0, 0, 0, v as i128, -1, -1]);
+        }
+    }
+
+    fn on_key_space_discarded(&mut self, first: &mut bool, _meta: &events::ConnectionMeta, event: &events::KeySpaceDiscarded) {
+        if !*first {
+            return;
+        }
+        let space: i128 = match event.space {
+            events::KeySpace::Initial { .. } => 0,
+            events::KeySpace::Handshake { .. } => 1,
+            events::KeySpace::OneRtt { .. } => 2,
+            _ => return,
+        };
+        let mut s = self.sh.lock().unwrap();
+        let t = now_us() as i128;
+        match s.xmode {
+            1 => s.xrow([3, self.ep as i128, space, 0, 0, t, 0, 0]),
+            3 => s.xrow([4, self.ep as i128, space, 0, 0, 0, 0, t]),
+            _ => {}
+        }
+    }
+
+    fn on_packet_sent(&mut self, first: &mut bool, _meta: &events::ConnectionMeta, event: &events::PacketSent) {
+        if !*first {
+            return;
+        }
+        let mut s = self.sh.lock().unwrap();
+        if s.xmode != 3 {
+            return;
+        }
+        if let Some((space, pn)) = header_space_pn(&event.packet_header) {
+            let mode: i128 = match event.transmission_mode {
+                events::TransmissionMode::Normal { .. } => 0,
+                events::TransmissionMode::LossRecoveryProbing { .. } => 1,
+                events::TransmissionMode::MtuProbing { .. } => 2,
+                _ => 3,
+            };
+            let el = s.built.remove(&(self.ep, space, pn)).map(|b| b as i128).unwrap_or(-1);
+            s.xrow([0, self.ep as i128, space as i128, pn as i128, event.packet_len as i128, el, mode, now_us() as i128]);
+        }
+    }
+
+    fn on_ack_range_received(&mut self, first: &mut bool, _meta: &events::ConnectionMeta, event: &events::AckRangeReceived) {
+        if !*first {
+            return;
+        }
+        let mut s = self.sh.lock().unwrap();
+        if s.xmode != 3 {
+            return;
+        }
+        if let Some((space, _)) = header_space_pn(&event.packet_header) {
+            s.xrow([1, self.ep as i128, space as i128, *event.ack_range.start() as i128, *event.ack_range.end() as i128, 0, 0, now_us() as i128]);
+        }
+    }
+
+    fn on_packet_lost(&mut self, first: &mut bool, _meta: &events::ConnectionMeta, event: &events::PacketLost) {
+        if !*first {
+            return;
+        }
+        let mut s = self.sh.lock().unwrap();
+        if s.xmode != 3 {
+            return;
+        }
+        if let Some((space, pn)) = header_space_pn(&event.packet_header) {
+            s.xrow([2, self.ep as i128, space as i128, pn as i128, event.bytes_lost as i128, event.is_mtu_probe as i128, 0, now_us() as i128]);
+        }
+    }
+
+    fn on_congestion(&mut self, first: &mut bool, _meta: &events::ConnectionMeta, _event: &events::Congestion) {
+        if !*first {
+            return;
+        }
+        let mut s = self.sh.lock().unwrap();
+        if s.xmode == 3 {
+            s.xrow([5, self.ep as i128, 0, 0, 0, 0, 0, now_us() as i128]);
+        }
+    }
+
+    fn on_mtu_updated(&mut self, first: &mut bool, _meta: &events::ConnectionMeta, event: &events::MtuUpdated) {
+        if !*first {
+            return;
+        }
+        let mut s = self.sh.lock().unwrap();
+        if s.xmode == 3 {
+            s.xrow([6, self.ep as i128, 0, event.mtu as i128, 0, 0, 0, now_us() as i128]);
+        }
+    }
+
+    fn on_endpoint_datagram_dropped(&mut self, _meta: &events::EndpointMeta, event: &events::EndpointDatagramDropped) {
+        // e2e_cid: which of the delivered datagrams was it?  The endpoint works through its receive
+        // queue in order, so it is the oldest delivered datagram of that length not yet accounted for.
+        let mut s = self.sh.lock().unwrap();
+        if s.xmode != 2 {
+            return;
+        }
+        let unknown = matches!(event.reason, events::DatagramDropReason::UnknownDestinationConnectionId { .. });
+        let ep = self.ep;
+        let mut hash: i128 = -1;
+        while let Some((len, h)) = s.delivered[ep].pop_front() {
+            if len == event.len as usize {
+                hash = h as i128;
+                break;
+            }
+        }
+        if unknown {
+            s.xrow([4, ep as i128, 0, 0, hash, 0, 0, now_us() as i128]);
         }
     }
 
@@ -411,6 +553,35 @@ struct Icpt {
     // client Initial can make the server open a further connection (a new connection attempt as
     // far as QUIC is concerned); its packets are not part of the observed connection.
     primary: Option<u64>,
+    // e2e_cid: rows of RETIRE_CONNECTION_ID frames waiting for the destination id of their datagram
+    pending_retire: Vec<usize>,
+    own_id_logged: bool,
+}
+
+fn datagram_cids(d: &[u8], cid_len: usize) -> (Option<u64>, Option<u64>) {
+    // (destination id hash, source id hash) of the first packet of a datagram
+    if d.is_empty() {
+        return (None, None);
+    }
+    if d[0] & 0x80 == 0 {
+        if d.len() > cid_len {
+            return (Some(checksum(&d[1..1 + cid_len])), None);
+        }
+        return (None, None);
+    }
+    if d.len() < 7 {
+        return (None, None);
+    }
+    let dl = d[5] as usize;
+    if d.len() < 7 + dl {
+        return (None, None);
+    }
+    let dcid = checksum(&d[6..6 + dl]);
+    let sl = d[6 + dl] as usize;
+    if d.len() < 7 + dl + sl {
+        return (Some(dcid), None);
+    }
+    (Some(dcid), Some(checksum(&d[7 + dl..7 + dl + sl])))
 }
 
 impl Icpt {
@@ -427,6 +598,15 @@ impl Icpt {
     }
 }
 
+fn header_space_pn(h: &events::PacketHeader) -> Option<(u64, u64)> {
+    match h {
+        events::PacketHeader::Initial { number, .. } => Some((0, *number)),
+        events::PacketHeader::Handshake { number, .. } => Some((1, *number)),
+        events::PacketHeader::OneRtt { number, .. } => Some((2, *number)),
+        _ => None,
+    }
+}
+
 fn space_id(s: PacketNumberSpace) -> u64 {
     match s {
         PacketNumberSpace::Initial => 0,
@@ -436,7 +616,7 @@ fn space_id(s: PacketNumberSpace) -> u64 {
 }
 
 impl Icpt {
-    fn frames(&mut self, tx: bool, payload: &[u8]) -> bool {
+    fn frames(&mut self, tx: bool, space: u64, payload: &[u8]) -> bool {
         // returns whether the packet is ack eliciting
         let mut copy = payload.to_vec();
         let mut buf = DecoderBufferMut::new(&mut copy);
@@ -456,6 +636,45 @@ impl Icpt {
             }
             if std::env::var_os("E2E_DEBUG").is_some() && !matches!(frame, FrameMut::Padding(_)) {
                 eprintln!("{} ep{} {} {:?}", now_us(), ep, if tx { "tx" } else { "rx" }, frame);
+            }
+            match s.xmode {
+                1 => {
+                    if tx {
+                        match &frame {
+                            FrameMut::Ack(a) => {
+                                let t = now_us() as i128;
+                                for r in a.ack_ranges() {
+                                    s.xrow([2, ep as i128, space as i128, r.start().as_u64() as i128, r.end().as_u64() as i128, t, 0, 0]);
+                                }
+                            }
+                            FrameMut::ConnectionClose(_) => {
+                                if !s.ep[ep].close_sent {
+                                    s.ep[ep].close_sent = true;
+                                    s.xrow([4, ep as i128, 0, 0, 0, now_us() as i128, 0, 0]);
+                                }
+                            }
+                            _ => {}
+                        }
+                    }
+                }
+                2 => {
+                    let t = now_us() as i128;
+                    match &frame {
+                        FrameMut::NewConnectionId(f) => {
+                            let k = if tx { 0 } else { 2 };
+                            s.xrow([k, ep as i128, f.sequence_number.as_u64() as i128, f.retire_prior_to.as_u64() as i128, checksum(f.connection_id) as i128, checksum(&f.stateless_reset_token[..]) as i128, -1, t]);
+                        }
+                        FrameMut::RetireConnectionId(f) => {
+                            let k = if tx { 1 } else { 3 };
+                            if tx {
+                                self.pending_retire.push(s.xlog.len());
+                            }
+                            s.xrow([k, ep as i128, f.sequence_number.as_u64() as i128, 0, 0, 0, -1, t]);
+                        }
+                        _ => {}
+                    }
+                }
+                _ => {}
             }
             if !self.full {
                 continue;
@@ -545,8 +764,37 @@ impl Interceptor for Icpt {
                 e.processed.push((space_id(packet.number.space()), packet.number.as_u64(), checksum(bytes)));
             }
         }
-        self.frames(false, bytes);
+        let space = space_id(packet.number.space());
+        let eliciting = self.frames(false, space, bytes);
+        {
+            let mut s = self.sh.lock().unwrap();
+            if s.xmode == 1 {
+                s.xrow([1, self.ep as i128, space as i128, packet.number.as_u64() as i128, eliciting as i128, t as i128, 0, 0]);
+            }
+        }
         DecoderBufferMut::new(bytes)
+    }
+
+    fn intercept_tx_datagram(&mut self, subject: &Subject, _datagram: &s2n_quic_core::packet::interceptor::Datagram, payload: &mut s2n_codec::EncoderBuffer) {
+        if !self.is_primary(subject) {
+            return;
+        }
+        let mut s = self.sh.lock().unwrap();
+        if s.xmode != 2 {
+            return;
+        }
+        let cid_len = s.cid_len;
+        let (dcid, scid) = datagram_cids(payload.as_mut_slice(), cid_len);
+        if let (false, Some(h)) = (self.own_id_logged, scid) {
+            // the connection id this endpoint uses during the handshake: sequence number 0
+            self.own_id_logged = true;
+            s.xrow([5, self.ep as i128, 0, 0, h as i128, 0, 0, now_us() as i128]);
+        }
+        for i in self.pending_retire.drain(..) {
+            if let (Some(row), Some(h)) = (s.xlog.get_mut(i), dcid) {
+                row[6] = h as i128;
+            }
+        }
     }
 
     fn intercept_tx_payload(&mut self, subject: &Subject, packet: &IPacket, payload: &mut s2n_codec::encoder::scatter::Buffer) {
@@ -558,7 +806,18 @@ impl Interceptor for Icpt {
             let mut s = self.sh.lock().unwrap();
             s.ep[self.ep].emitted.insert((space_id(packet.number.space()), packet.number.as_u64(), checksum(&bytes)));
         }
-        let eliciting = self.frames(true, &bytes);
+        let space = space_id(packet.number.space());
+        let eliciting = self.frames(true, space, &bytes);
+        {
+            let mut s = self.sh.lock().unwrap();
+            match s.xmode {
+                1 => s.xrow([0, self.ep as i128, space as i128, packet.number.as_u64() as i128, eliciting as i128, now_us() as i128, 0, 0]),
+                3 => {
+                    s.built.insert((self.ep, space, packet.number.as_u64()), eliciting);
+                }
+                _ => {}
+            }
+        }
         if eliciting {
             let mut s = self.sh.lock().unwrap();
             let e = &mut s.ep[self.ep];
@@ -707,6 +966,18 @@ impl Net {
                     let fb = pkt.payload.first().copied().unwrap_or(0) as i128;
                     let r = [now_us() as i128, 1, src, dst, pkt.payload.len() as i128, fb, classify(&pkt.payload)];
                     s.wire(r);
+                }
+                if s.xmode == 2 {
+                    let dst = addr_id(&pkt.path.local_address.0);
+                    let (dcid, _) = datagram_cids(&pkt.payload, s.cid_len);
+                    for ep in 0..2 {
+                        if s.ids[ep] == dst {
+                            if s.delivered[ep].len() > 4000 {
+                                s.delivered[ep].pop_front();
+                            }
+                            s.delivered[ep].push_back((pkt.payload.len(), dcid.unwrap_or(0)));
+                        }
+                    }
                 }
             }
             buffers.rx(*pkt.path.local_address, |q| q.enqueue(pkt));
@@ -917,6 +1188,68 @@ struct AppCfg {
     close_at_end: bool,
     full_records: bool,
     finish_mode: u64, // 0: close().await (finish + flush in one request); 1: finish() then flush().await
+    retry_first: u64,      // the server answers this many connection attempts with a Retry
+    cid_lifetime_ms: u64,  // 0 = connection ids do not expire
+    active_cid_limit: [u64; 2], // (client, server) active_connection_id_limit, 0 = default
+    cc: u64,               // 0 cubic, 1 bbr
+    max_ack_delay_ms: u64, // 0 = default (25 ms)
+    pause_ms: u64,         // the writers sleep this long between chunks
+    rebinds: u64,          // the client's socket moves to a new port this many times ...
+    rebind_every_ms: u64,  // ... at this interval
+}
+
+/// endpoint limits: Retry for the first `retry` connection attempts
+struct RetryFirst {
+    retry: u64,
+}
+
+impl s2n_quic::provider::endpoint_limits::Limiter for RetryFirst {
+    fn on_connection_attempt(&mut self, _info: &s2n_quic::provider::endpoint_limits::ConnectionAttempt) -> s2n_quic::provider::endpoint_limits::Outcome {
+        if self.retry > 0 {
+            self.retry -= 1;
+            s2n_quic::provider::endpoint_limits::Outcome::retry()
+        } else {
+            s2n_quic::provider::endpoint_limits::Outcome::allow()
+        }
+    }
+}
+
+/// seeded connection ids of 16 bytes, optionally with one constant lifetime
+struct CidFormat {
+    rng: Rng,
+    lifetime: Option<Duration>,
+}
+
+const CID_LEN: usize = 16;
+
+impl s2n_quic::provider::connection_id::Validator for CidFormat {
+    fn validate(&self, _info: &s2n_quic::provider::connection_id::ConnectionInfo, buffer: &[u8]) -> Option<usize> {
+        if buffer.len() >= CID_LEN {
+            Some(CID_LEN)
+        } else {
+            None
+        }
+    }
+}
+
+impl s2n_quic::provider::connection_id::Generator for CidFormat {
+    fn generate(&mut self, _info: &s2n_quic::provider::connection_id::ConnectionInfo) -> s2n_quic::provider::connection_id::LocalId {
+        let mut id = [0u8; CID_LEN];
+        for b in id.iter_mut() {
+            *b = self.rng.next() as u8;
+        }
+        s2n_quic::provider::connection_id::LocalId::try_from_bytes(&id[..]).unwrap()
+    }
+    fn lifetime(&self) -> Option<Duration> {
+        self.lifetime
+    }
+}
+
+fn cid_format(c: &AppCfg, stream: u64) -> CidFormat {
+    CidFormat {
+        rng: Rng::new(c.seed, stream),
+        lifetime: if c.cid_lifetime_ms > 0 { Some(Duration::from_millis(c.cid_lifetime_ms)) } else { None },
+    }
 }
 
 fn flow_size(c: &AppCfg, sid: u64, dir: u64) -> u64 {
@@ -930,8 +1263,15 @@ fn flow_size(c: &AppCfg, sid: u64, dir: u64) -> u64 {
     }
 }
 
-fn limits(c: &AppCfg) -> Limits {
-    Limits::new()
+fn limits(c: &AppCfg, ep: usize) -> Limits {
+    let mut l = Limits::new();
+    if c.max_ack_delay_ms > 0 {
+        l = l.with_max_ack_delay(Duration::from_millis(c.max_ack_delay_ms)).unwrap();
+    }
+    if c.active_cid_limit[ep] > 0 {
+        l = l.with_max_active_connection_ids(c.active_cid_limit[ep]).unwrap();
+    }
+    l
         .with_data_window(c.conn_window)
         .unwrap()
         .with_bidirectional_local_data_window(c.stream_window)
@@ -981,6 +1321,9 @@ async fn writer(mut send: s2n_quic::stream::SendStream, c: AppCfg, sh: Sh, ep: u
             // the bytes are handed to the API now: from here on the reader may see them
             let mut s = sh.lock().unwrap();
             s.flow(sid, dir).written = off + n;
+        }
+        if c.pause_ms > 0 && off > 0 {
+            time::delay(Duration::from_millis(c.pause_ms)).await;
         }
         match send.send(data).await {
             Ok(()) => {
@@ -1079,16 +1422,29 @@ async fn reader(mut recv: s2n_quic::stream::ReceiveStream, c: AppCfg, sh: Sh, ep
 }
 
 fn start_server(handle: &Handle, c: &AppCfg, sh: &Sh, tls: (String, String)) -> io::Result<std::net::SocketAddr> {
-    let mut server = Server::builder()
-        .with_io(handle.builder().build()?)?
-        .with_tls((tls.0.as_str(), tls.1.as_str()))?
-        .with_event(Sub { ep: 1, sh: sh.clone(), peer_conn_window: c.conn_window })?
-        .with_random(Random(Rng::new(c.seed, 2)))?
-        .with_stateless_reset_token(ResetTokens(mix(c.seed ^ 0x7e57)))?
-        .with_limits(limits(c))?
-        .with_packet_interceptor(Icpt { ep: 1, sh: sh.clone(), full: c.full_records, primary: None })?
-        .start()?;
+    macro_rules! build {
+        ($cc:expr) => {
+            Server::builder()
+                .with_io(handle.builder().build()?)?
+                .with_tls((tls.0.as_str(), tls.1.as_str()))?
+                .with_event(Sub { ep: 1, sh: sh.clone(), peer_conn_window: c.conn_window })?
+                .with_random(Random(Rng::new(c.seed, 2)))?
+                .with_stateless_reset_token(ResetTokens(mix(c.seed ^ 0x7e57)))?
+                .with_endpoint_limits(RetryFirst { retry: c.retry_first })?
+                .with_connection_id(cid_format(c, 41))?
+                .with_congestion_controller($cc)?
+                .with_limits(limits(c, 1))?
+                .with_packet_interceptor(Icpt { ep: 1, sh: sh.clone(), full: c.full_records, primary: None, pending_retire: vec![], own_id_logged: false })?
+                .start()?
+        };
+    }
+    let mut server = if c.cc == 1 {
+        build!(s2n_quic::provider::congestion_controller::Bbr::default())
+    } else {
+        build!(s2n_quic::provider::congestion_controller::Cubic::default())
+    };
     let addr = server.local_addr()?;
+    sh.lock().unwrap().ids[1] = (addr.port() as u64).wrapping_sub(49152);
     let c = c.clone();
     let sh = sh.clone();
     spawn(async move {
@@ -1125,14 +1481,43 @@ fn start_server(handle: &Handle, c: &AppCfg, sh: &Sh, tls: (String, String)) -> 
 }
 
 fn start_client(handle: &Handle, c: &AppCfg, sh: &Sh, addr: std::net::SocketAddr) -> io::Result<()> {
-    let client = Client::builder()
-        .with_io(handle.builder().build()?)?
-        .with_tls(certificates::CERT_PEM)?
-        .with_event(Sub { ep: 0, sh: sh.clone(), peer_conn_window: c.conn_window })?
-        .with_random(Random(Rng::new(c.seed, 3)))?
-        .with_limits(limits(c))?
-        .with_packet_interceptor(Icpt { ep: 0, sh: sh.clone(), full: c.full_records, primary: None })?
-        .start()?;
+    let sh_sock = sh.clone();
+    let rebinds = c.rebinds;
+    let rebind_every = c.rebind_every_ms;
+    let on_socket = move |socket: io::Socket| {
+        let mut local = socket.local_addr().unwrap();
+        sh_sock.lock().unwrap().ids[0] = (local.port() as u64).wrapping_sub(49152);
+        if rebinds > 0 {
+            spawn(async move {
+                for _ in 0..rebinds {
+                    time::delay(Duration::from_millis(rebind_every)).await;
+                    // a NAT rebinding: same host, new port (ports above the generated range)
+                    local.set_port(local.port().wrapping_add(1000));
+                    socket.rebind(local);
+                    sh_sock.lock().unwrap().ids[0] = (local.port() as u64).wrapping_sub(49152);
+                }
+            });
+        }
+    };
+    macro_rules! build {
+        ($cc:expr) => {
+            Client::builder()
+                .with_io(handle.builder().on_socket(on_socket).build()?)?
+                .with_tls(certificates::CERT_PEM)?
+                .with_event(Sub { ep: 0, sh: sh.clone(), peer_conn_window: c.conn_window })?
+                .with_random(Random(Rng::new(c.seed, 3)))?
+                .with_connection_id(cid_format(c, 42))?
+                .with_congestion_controller($cc)?
+                .with_limits(limits(c, 0))?
+                .with_packet_interceptor(Icpt { ep: 0, sh: sh.clone(), full: c.full_records, primary: None, pending_retire: vec![], own_id_logged: false })?
+                .start()?
+        };
+    }
+    let client = if c.cc == 1 {
+        build!(s2n_quic::provider::congestion_controller::Bbr::default())
+    } else {
+        build!(s2n_quic::provider::congestion_controller::Cubic::default())
+    };
     let c = c.clone();
     let sh = sh.clone();
     // the controller is the only primary task: the simulation ends when it returns
@@ -1341,6 +1726,7 @@ fn e2e_stream(input: &[V]) -> Vec<V> {
         close_at_end,
         full_records: true,
         finish_mode,
+        ..Default::default()
     };
     let net = NetCfg {
         seed,
@@ -1486,6 +1872,7 @@ fn e2e_amp(input: &[V]) -> Vec<V> {
         close_at_end: false,
         full_records: false,
         finish_mode: 0,
+        ..Default::default()
     };
     // the server is the first socket (id 0), then the raw senders, then the client
     let client_id = 1 + n_raw;
@@ -1590,6 +1977,7 @@ fn e2e_inject(input: &[V]) -> Vec<V> {
         close_at_end: false,
         full_records: false,
         finish_mode: 0,
+        ..Default::default()
     };
     let net = NetCfg {
         seed,
